@@ -7,6 +7,9 @@ package operator
 // Part A (metadata): for every cluster spec x topic set the broker StatefulSet is rendered by the
 // real reconcileBrokerDeployment on the controller-runtime fake client and the metadata by the
 // real BuildClusterMetadata; the oracle below is written from the property statement.
+// Part H (history, zz_verif_c39_history_test.go): ordered pairs/triples of specs reconciled step by
+// step on ONE fake API server (the cluster object is edited in between); Part A oracle on the
+// StatefulSet then on the server, plus differential against a fresh server with the last spec.
 // Part B (bucket names): every (namespace, name) of the name alphabet goes through the real
 // defaultEtcdSnapshotBucket / snapshotBucket and through the real managed-etcd renderers
 // (SNAPSHOT_BUCKET of the etcd StatefulSet init container and of the snapshot CronJob); the
@@ -41,9 +44,10 @@ type c39Topic struct {
 }
 
 type c39Replay struct {
-	Kind   string     `json:"kind"` // "metadata" | "bucket"
-	Spec   vopSpec    `json:"spec"`
-	Topics []c39Topic `json:"topics,omitempty"`
+	Kind    string     `json:"kind"` // "metadata" | "bucket" | "history" | "history-diff"
+	Spec    vopSpec    `json:"spec"`
+	History []vopSpec  `json:"history,omitempty"` // specs reconciled on the same API server before the cluster was edited to Spec
+	Topics  []c39Topic `json:"topics,omitempty"`
 }
 
 func c39Names(thorough bool) (names, namespaces []string) {
@@ -184,9 +188,18 @@ func c39BuildMetadata(cluster *kafscalev1alpha1.KafscaleCluster, topics []kafsca
 }
 
 // c39CheckMetadata runs one (spec, topic set) case; returns the outcome signature and whether it is non-trivial.
-func c39CheckMetadata(rep *vh.Report, s vopSpec, rendered c39Rendered, topicSet []c39Topic) (string, bool) {
+// hist is empty for a StatefulSet rendered on a fresh API server; otherwise it lists the specs that were
+// reconciled on the same API server before the cluster was edited to s (violation keys get the prefix
+// "after-spec-edit:", because a stale object is a different mechanism from a wrong first render).
+func c39CheckMetadata(rep *vh.Report, s vopSpec, rendered c39Rendered, topicSet []c39Topic, hist []vopSpec) (string, bool) {
 	replay := c39Replay{Kind: "metadata", Spec: s, Topics: topicSet}
-	specStr := fmt.Sprintf("name=%q(len %d) namespace=%q(len %d) replicas=%s advertisedHost=%q advertisedPort=%s topics=%v",
+	kp, histStr := "", ""
+	if len(hist) > 0 {
+		replay.Kind, replay.History = "history", hist
+		kp = "after-spec-edit:"
+		histStr = "after reconciling " + c39HistStr(hist) + " on the same API server, then editing the cluster to: "
+	}
+	specStr := histStr + fmt.Sprintf("name=%q(len %d) namespace=%q(len %d) replicas=%s advertisedHost=%q advertisedPort=%s topics=%v",
 		c39Short(s.Name), len(s.Name), c39Short(s.Namespace), len(s.Namespace), vopReplicasStr(s.Replicas), s.AdvHost, vopReplicasStr(s.AdvPort), topicSet)
 	if rendered.sts == nil {
 		// the fake API server refused the render: nothing deployed to compare with; not a verdict of this property
@@ -194,7 +207,7 @@ func c39CheckMetadata(rep *vh.Report, s vopSpec, rendered c39Rendered, topicSet 
 	}
 	sts := rendered.sts
 	if sts.Spec.Replicas == nil {
-		rep.Violationf("statefulset-replicas-unset", replay, "rendered StatefulSet has no replica count; %s", specStr)
+		rep.Violationf(kp+"statefulset-replicas-unset", replay, "rendered StatefulSet has no replica count; %s", specStr)
 		return "sts-replicas-nil", false
 	}
 	deployed := int(*sts.Spec.Replicas)
@@ -209,7 +222,7 @@ func c39CheckMetadata(rep *vh.Report, s vopSpec, rendered c39Rendered, topicSet 
 	}
 	meta, perr := c39BuildMetadata(cluster, topics)
 	if perr != "" {
-		rep.Violationf("metadata-render-panic", replay, "BuildClusterMetadata panicked (%s): nothing can be published; %s", perr, specStr)
+		rep.Violationf(kp+"metadata-render-panic", replay, "BuildClusterMetadata panicked (%s): nothing can be published; %s", perr, specStr)
 		return "panic", true
 	}
 
@@ -223,7 +236,7 @@ func c39CheckMetadata(rep *vh.Report, s vopSpec, rendered c39Rendered, topicSet 
 	sig := fmt.Sprintf("%s deployed=%d published=%d", class, deployed, len(meta.Brokers))
 	countOK := len(meta.Brokers) == deployed
 	if !countOK {
-		rep.Violationf("broker-count:"+class, replay,
+		rep.Violationf(kp+"broker-count:"+class, replay,
 			"metadata lists %d broker(s) but the rendered StatefulSet %s deploys %d replica(s); %s", len(meta.Brokers), sts.Name, deployed, specStr)
 	}
 
@@ -241,20 +254,20 @@ func c39CheckMetadata(rep *vh.Report, s vopSpec, rendered c39Rendered, topicSet 
 			}
 		}
 		if !okIDs {
-			rep.Violationf("node-id-not-pod-ordinal", replay, "published node ids %v are not the pod ordinals 0..%d; %s", c39IDs(meta), deployed-1, specStr)
+			rep.Violationf(kp+"node-id-not-pod-ordinal", replay, "published node ids %v are not the pod ordinals 0..%d; %s", c39IDs(meta), deployed-1, specStr)
 		} else {
 			for _, b := range meta.Brokers {
 				host, port, kind, problem := c39PodAddress(sts, int(b.NodeID))
 				hostKind = kind
 				if problem != "" {
-					rep.Violationf("pod-address:"+problem, replay, "rendered broker container env does not give pod %d a stable address (%s); %s", b.NodeID, problem, specStr)
+					rep.Violationf(kp+"pod-address:"+problem, replay, "rendered broker container env does not give pod %d a stable address (%s); %s", b.NodeID, problem, specStr)
 					continue
 				}
 				if b.Host != host {
-					rep.Violationf("broker-host-mismatch:"+kind, replay, "broker %d published at host %q but pod %s-%d advertises %q; %s", b.NodeID, b.Host, sts.Name, b.NodeID, host, specStr)
+					rep.Violationf(kp+"broker-host-mismatch:"+kind, replay, "broker %d published at host %q but pod %s-%d advertises %q; %s", b.NodeID, b.Host, sts.Name, b.NodeID, host, specStr)
 				}
 				if int(b.Port) != port {
-					rep.Violationf("broker-port-mismatch", replay, "broker %d published with port %d but the pod is told KAFSCALE_BROKER_PORT=%d; %s", b.NodeID, b.Port, port, specStr)
+					rep.Violationf(kp+"broker-port-mismatch", replay, "broker %d published with port %d but the pod is told KAFSCALE_BROKER_PORT=%d; %s", b.NodeID, b.Port, port, specStr)
 				}
 			}
 		}
@@ -276,16 +289,16 @@ func c39CheckMetadata(rep *vh.Report, s vopSpec, rendered c39Rendered, topicSet 
 			nums = append(nums, int(p.Partition))
 			leaders = append(leaders, p.Leader)
 			if !ids[p.Leader] {
-				rep.Violationf("leader-not-a-broker", replay, "topic %q partition %d has leader %d which is not among the published brokers %v; %s", name, p.Partition, p.Leader, c39IDs(meta), specStr)
+				rep.Violationf(kp+"leader-not-a-broker", replay, "topic %q partition %d has leader %d which is not among the published brokers %v; %s", name, p.Partition, p.Leader, c39IDs(meta), specStr)
 			} else if countOK && int(p.Leader) >= deployed {
-				rep.Violationf("leader-not-a-deployed-pod", replay, "topic %q partition %d leader %d has no pod (replicas %d); %s", name, p.Partition, p.Leader, deployed, specStr)
+				rep.Violationf(kp+"leader-not-a-deployed-pod", replay, "topic %q partition %d leader %d has no pod (replicas %d); %s", name, p.Partition, p.Leader, deployed, specStr)
 			}
 		}
 		sorted := append([]int(nil), nums...)
 		sort.Ints(sorted)
 		for i, n := range sorted {
 			if n != i {
-				rep.Violationf("partition-numbering", replay, "topic %q partitions are numbered %v, not 0..%d; %s", name, nums, len(nums)-1, specStr)
+				rep.Violationf(kp+"partition-numbering", replay, "topic %q partitions are numbered %v, not 0..%d; %s", name, nums, len(nums)-1, specStr)
 				break
 			}
 		}
@@ -425,6 +438,7 @@ func TestVerifC39(t *testing.T) {
 	}
 	rep.Rule = "Part A: product replicas x advertisedHost x advertisedPort x name x namespace x topic set; broker StatefulSet rendered by the real reconcileBrokerDeployment on the fake API server, metadata by the real BuildClusterMetadata; " +
 		"oracle: #brokers == rendered replicas, node ids == pod ordinals, host == address the rendered container env gives that pod, port == KAFSCALE_BROKER_PORT, leaders among brokers, partitions 0..n-1. " +
+		"Part H: every ordered pair (thorough: triple) of specs over replicas x advertisedHost x advertisedPort is reconciled step by step on ONE fake API server (cluster object updated between steps; real reconcileBrokerDeployment + reconcileBrokerHeadlessService); the Part A oracle is applied between the StatefulSet then on the server and BuildClusterMetadata(last spec), and the specs of all generated objects must equal those of a fresh server reconciled once with the last spec. Non-trivial (H): the last edit changes the fresh render. " +
 		"Part B: (namespace, name) pairs through defaultEtcdSnapshotBucket/snapshotBucket and the rendered SNAPSHOT_BUCKET env values, checked against the S3 bucket grammar. " +
 		"Non-trivial: >=2 deployed brokers with a multi-partition topic (leader choice matters), or the advertised host is used, or broker count differs (A); the sanitiser rewrote the raw name or the result is invalid (B)."
 	rep.Assumptions = []string{
@@ -441,11 +455,18 @@ func TestVerifC39(t *testing.T) {
 		}
 		rep.Cap("replay of a single case")
 		rep.Eval(1)
-		if rp.Kind == "bucket" {
+		switch rp.Kind {
+		case "bucket":
 			sig, nt := c39CheckBucket(rep, scheme, rp.Spec.Namespace, rp.Spec.Name, true)
 			rep.Outcome(sig, nt)
-		} else {
-			sig, nt := c39CheckMetadata(rep, rp.Spec, c39RenderBrokers(scheme, rp.Spec), rp.Topics)
+		case "history", "history-diff":
+			if len(rp.History) == 0 {
+				t.Fatalf("HARNESS-ERROR replay: history case without history")
+			}
+			h := &c39HistCtx{rep: rep, scheme: scheme, kinds: vopListKinds(scheme), fresh: map[string]c39HistResult{}}
+			h.c39CheckHistory(append(append([]vopSpec(nil), rp.History...), rp.Spec), [][]c39Topic{rp.Topics})
+		default:
+			sig, nt := c39CheckMetadata(rep, rp.Spec, c39RenderBrokers(scheme, rp.Spec), rp.Topics, nil)
 			rep.Outcome(sig, nt)
 		}
 		return
@@ -512,7 +533,7 @@ func TestVerifC39(t *testing.T) {
 			rep.Count("render_errors", 1)
 		}
 		for _, ts := range topicSets {
-			sig, nt := c39CheckMetadata(rep, s, rendered, ts)
+			sig, nt := c39CheckMetadata(rep, s, rendered, ts, nil)
 			rep.Eval(1)
 			rep.Count("metadata_cases", 1)
 			rep.Outcome(sig, nt)
@@ -522,6 +543,11 @@ func TestVerifC39(t *testing.T) {
 		}
 		return true
 	})
+
+	// ---- Part H: spec edit histories on one API server
+	if !capped {
+		capped = c39HistoryPart(rep, scheme, topicSets, thorough, deadline)
+	}
 
 	// ---- Part B (simplest first, so the first counterexample is the shortest)
 	// all-'a' names of every length 1..64 (+100, 253) x namespace lengths, simplest first, and
